@@ -407,7 +407,7 @@ int main(int argc, char **argv)
 		}
 	}
 	(void)plan;
-	mon_printf("STAT method=%s injected=%llu waits=%llu\n", g_method, (unsigned long long)vt_stats.injected, (unsigned long long)vt_stats.waits);
+	mon_printf("STAT method=%s injected=%llu waits=%llu successful_calls_leaving_stale_errno=%llu\n", g_method, (unsigned long long)vt_stats.injected, (unsigned long long)vt_stats.waits, (unsigned long long)vt_stats.stale_errno);
 	mon_printf("DONE\n");
 	return 0;
 }
